@@ -284,6 +284,8 @@ class GhostCallbacks:
 
 
 class GhostOptimizer:
+    current = None      # the world of the fit call in progress (an optimizer object may outlive the call that built it)
+
     def __init__(self, w, params, lr=None, **kw):
         self.w = w
         allp = [p for n in w.netnames for p in w.nets[n].params]
@@ -291,19 +293,33 @@ class GhostOptimizer:
         w.check("C06", "optimizer/constructed with the requested learning rate and arguments", lr is w.lr and kw == w.optimizer_args)
         w.check(("C06", "C12"), "optimizer/constructed before the first event", w.phase == "IDLE")
 
+    def _world(self):
+        cur = GhostOptimizer.current or self.w
+        cur.check("C06", "update/the optimizer that steps is the one this call built from this call's learning rate and arguments", cur is self.w)
+        return cur
+
     def zero_grad(self):
-        w = self.w
+        w = self._world()
         w.check(("C06", "C12"), "update/zero_grad inside a batch event pair", w.phase == "IN_BATCH")
         w.batch_log.append("zero_grad")
 
     def step(self):
-        w = self.w
+        w = self._world()
         w.check("C12", "protocol/parameters change only between a batch_start and its batch_end", w.phase == "IN_BATCH")
         grads_ok = all(p.grad == ("slice", ("grad", n, w.batch_token), p.name) for n in w.netnames for p in w.nets[n].params)
         w.check("C06", "update/at step time every parameter's .grad is its slice of this batch's gradient for its own network", grads_ok)
         w.batch_log.append("step")
         w.steps_this_epoch = w.steps_this_epoch + 1
         w.param_version += 1
+
+
+class UserOptimizer(GhostOptimizer):
+    """What the caller passes as `optimizer=`: a class (as torch.optim.SGD is), the same one in every call of a history."""
+
+    def __init__(self, params, lr=None, **kw):
+        w = GhostOptimizer.current
+        GhostOptimizer.__init__(self, w, params, lr=lr, **kw)
+        w.optimizer_obj = self
 
 
 class GhostScheduler:
@@ -439,10 +455,9 @@ def run_fit(vc, w, f, user_callbacks=("CB1",), time=False, me=None, bases_obj=No
             return c
         data.clone = clone
 
-    def opt_factory(params, lr=None, **kw):
-        o = GhostOptimizer(w, params, lr=lr, **kw)
-        w.optimizer_obj = o
-        return o
+    w.optimizer_obj = None
+    GhostOptimizer.current = w
+    opt_factory = UserOptimizer
 
     def sched_factory(opt, **kw):
         sc = GhostScheduler(w, opt, **kw)
